@@ -1083,6 +1083,14 @@ def expand_case(draw):
         pws = [["Power", base, ["Const", "int", k]] for k in ks]
         s = [draw(st.sampled_from(("Sum", "Sum", "Product"))), pws + (
             [s] if draw(st.booleans()) else [])]
+    elif draw(st.integers(0, 9)) == 0:
+        # one higher power (odd and even exponents up to 9) of a short sum
+        base = ["Sum", [["Var", draw(st.sampled_from(G.VARS))],
+                        draw(st.sampled_from((["Const", "int", 1], ["Const", "int", -2],
+                                               ["Var", draw(st.sampled_from(G.VARS))])))]]
+        s = ["Power", base, ["Const", "int", draw(st.sampled_from((4, 5, 5, 6, 7, 8, 9)))]]
+        if draw(st.booleans()):
+            s = ["Sum", [s, ["Var", "x"]]]
     m = draw(st.integers(0, 9))
     mode = "expand" if m <= 5 else ("distribute", "params", "params", "noncommutative")[m - 6]
     out = {"expr": s, "mode": mode}
